@@ -113,16 +113,16 @@ def run(ck):
     thorough = ck.tier == "thorough"
     tier = "thorough" if thorough else "quick"
     cases = {k: ck.path("cases-%s.ndjson" % k) for k in ("enum", "lines", "run", "insert")}
-    r1 = ck.tlc("text", "PositionGen", "MC_enum_%s.cfg" % tier, label="all texts x all offsets; run-length operators = definition", env={"VERIF_CASES": cases["enum"]}, timeout=1500)
-    r2 = ck.tlc("text", "PositionGen", "MC_run_%s.cfg" % tier, label="run-length texts around the elision limits", env={"VERIF_CASES": cases["run"]}, timeout=1500)
+    ck.tlc("text", "PositionGen", "MC_enum_%s.cfg" % tier, label="all texts x all offsets; run-length operators = definition", env={"VERIF_CASES": cases["enum"]}, timeout=1500)
+    ck.tlc("text", "PositionGen", "MC_run_%s.cfg" % tier, label="run-length texts around the elision limits", env={"VERIF_CASES": cases["run"]}, timeout=1500)
     ck.tlc("text", "PositionGen", "MC_lines_%s.cfg" % tier, label="texts with 10^4..10^6 lines (line numbers of 5 and more digits)", env={"VERIF_CASES": cases["lines"]}, timeout=900)
-    r3 = ck.tlc("text", "InsertGen", "MC_insert_%s.cfg" % tier, label="JS/JSON documents x token boundaries", env={"VERIF_CASES": cases["insert"]}, timeout=900)
+    ck.tlc("text", "InsertGen", "MC_insert_%s.cfg" % tier, label="JS/JSON documents x token boundaries", env={"VERIF_CASES": cases["insert"]}, timeout=900)
     ck.cov["exhaustive"] = True
     ck.cov["constants"] = {"enum": {"classes": 10, "MaxLen": 5 if thorough else 4, "offsets": "-1..len+1"},
                            "run": {"RunClasses": [1, 2, 3, 4, 5, 6] if thorough else [1, 3], "XClasses": "all 10",
                                    "Counts": [0, 1, 19, 20, 21, 39, 40, 41, 56, 57, 58, 59, 60, 61, 80]},
                            "lines": {"LineCounts": [9998, 9999, 99998, 99999] + ([999998, 999999] if thorough else [])},
-                           "insert": {"js_statements": 11, "js_separators": 7, "json_documents": 8, "illegal": ["@", "0x01", "\\", "U+0080"]}}
+                           "insert": {"js_statements": 19, "js_paired_with": 3, "js_separators": 7, "json_documents": 8, "illegal": ["@", "0x01", "\\", "U+0080"]}}
     sums = {}
     for k in ("enum", "lines", "run", "insert"):
         s = sums[k] = ck.drive("position", "replay", "-cases", cases[k], "-out", ck.path(k + ".ndjson"), "-seed", ck.seed, "-tid0", TID0[k])
